@@ -191,6 +191,14 @@ def dispatchK {κ : Type} (T : Tables) (f : String) (args kwops : List Arg) (kw 
   let ov := overloaded T.classes (args ++ kwops)
   if hasOp ov then handlers T f ov args kw ov else .native
 
+/-- `dispatchK` for a `__torch_function__` that first completes the positional tuple from the keyword operands
+(`input=` then `other=`, listed in that order in `kwops`) when fewer than two positional arguments were given
+(`norm = true`, the proposed fix notes/C15_fix_3.diff); `norm = false` is `dispatchK`. -/
+def dispatchKN {κ : Type} (norm : Bool) (T : Tables) (f : String) (args kwops : List Arg) (kw : κ) : Outcome κ :=
+  let ov := overloaded T.classes (args ++ kwops)
+  let args' := if norm then args ++ kwops.take (2 - args.length) else args
+  if hasOp ov then handlers T f ov args' kw ov else .native
+
 /-! ### Denotational layer for the two-operand functions -/
 
 inductive BinFn
